@@ -7,6 +7,7 @@ from props.c20 import _same_arrays
 
 ID = "C18"
 HEAP_SUMMARY = True      # end every program with the reference-level observation (BB.Model.Heap vs id() walk)
+UNIVERSAL_EVERY = 6      # every n-th case is a feature-rich random program (props/universal.py)
 LEAN_MODULE = "BB.Properties.C18"
 QUICK_N = 240
 THOROUGH_N = 2500
